@@ -55,6 +55,9 @@ Fixpoint steps_allowed (dfs : list Z) (nbs : list nbrow) (nodes : list node)
           else match rest with [] => false | _ => steps_allowed dfs nbs nodes nxt rest end)
   end.
 Definition init_tbl (nodes : list node) : list (Z * Z) := map (fun n => (n_id n, n_id n)) nodes.
+(* tie-free: the returned partition is the partition of the sequential greedy specification *)
+Definition same_partition (f : list (Z * Z)) (g : Z -> Z) : bool :=
+  forallb (fun a => forallb (fun b => Bool.eqb (snd a =? snd b) (g (fst a) =? g (fst b))) f) f.
 (* case: duplicate-free datasets, threshold, nodes, edges, tie-free?, captured trajectory *)
 Definition run_case (c : list Z * Q * list node * list edge * bool * list (list (Z * Z) * bool)) : bool :=
   match c with (dfs, thr, nodes, E, tiefree, impl) =>
@@ -63,6 +66,7 @@ Definition run_case (c : list Z * Q * list node * list edge * bool * list (list 
     && (if tiefree
         then traces_eq (map fst impl)
                (oto_trace dfs nbs first_max first_max (S (length impl)) 1 (df_representatives nodes))
+             && same_partition (last (map fst impl) []) (greedy_clusters dfs (Some thr) nodes E)
         else true)
   end.
 """
@@ -140,6 +144,8 @@ def run_impl(case):
     from splink import Linker, SettingsCreator
     names, nodes = case["names"], case["nodes"]
     api = su.make_api(case["backend"])
+    if case.get("threads") and case["backend"] == "duckdb":
+        api._con.execute(f"SET threads TO {int(case['threads'])}")
     trace = []
     orig = api.sql_pipeline_to_splink_dataframe
 
@@ -404,6 +410,29 @@ WITNESS = {"names": ["a", "b", "c"], "nodes": [("a", 0), ("a", 1), ("a", 2), ("b
            "edges": [(0, 3, 700), (1, 4, 900), (2, 4, 900), (3, 4, 900)], "thr": 512, "dfs": ["b"], "form": "single"}
 
 
+# KF-C12-ties-disconnected: three tied edges at a hub; SQLite realises the disconnected cluster
+# deterministically (DuckDB for some row orders)
+KF_WITNESS = {"backend": "sqlite", "names": ["b", "c", "ds_x"],
+              "nodes": [("b", 1), ("c", 2), ("b", 30), ("c", 11), ("ds_x", 101)],
+              "edges": [(3, 4, 800), (1, 4, 800), (2, 4, 800), (1, 0, 845)],
+              "thr": 0, "dfs": ["c"], "form": "single", "ties_wanted": True}
+
+
+def known_witnesses(ctx: Ctx):
+    case = dict(KF_WITNESS)
+    trace, final = run_impl(case)
+    problems = [p for p in oracle(case, final) if p[0] == "connectivity"]
+    ctx.cov["evaluations"] += 1
+    if problems:
+        info, _ = case_term(case, trace, final)
+        rep = describe(case, trace, final, info)
+        rep["failure"] = {"kind": "connectivity", "detail": problems[0][1]}
+        ctx.violation("cluster_using_single_best_links: with tied probabilities a returned cluster is not connected "
+                      "(row_number windows without tie-breaker)", rep, features_of(case, "connectivity"))
+    else:
+        ctx.expect_known("KF-C12-ties-disconnected", False, "the witness now yields connected clusters")
+
+
 def correspondence(ctx: Ctx):
     quick = ctx.quick
     plan = [("duckdb", False, 110 if quick else 1500), ("duckdb", True, 110 if quick else 1500),
@@ -478,6 +507,8 @@ def correspondence(ctx: Ctx):
             c["edges"] = [tuple(x) if ctx.rng.random() < 0.5 else (x[1], x[0], x[2]) for x in c["edges"]]
             ctx.rng.shuffle(c["edges"])
             c["ties_wanted"] = True
+            if not quick:
+                c["threads"] = ctx.rng.randint(1, 16)
             one(c)
     ctx.cov["steps_not_enumerated"] = skipped_steps
 
@@ -492,6 +523,7 @@ def correspondence(ctx: Ctx):
                {"checked_steps": info["checked_steps"]}, trace, final, info)
     if errs and not bad:
         ctx.violation("correspondence C12_x could not be evaluated", {"broken": "C12_x", "errors": errs}, found_input=False)
+    known_witnesses(ctx)
 
 
 def replay(ctx: Ctx):
